@@ -23,7 +23,7 @@ macro_rules! ssr_bias {
 
             /// one entry: satellite over the whole u8, any recognised signal, any f32 bias
             #[kani::proof]
-            #[kani::unwind(392)]
+            #[kani::unwind(66)]
             pub fn one() {
                 let sat: u8 = kani::any();
                 let si: usize = kani::any();
@@ -80,7 +80,7 @@ macro_rules! ssr_bias {
 
             /// every 14-bit bias pattern decodes and re-encodes to itself (C08 for this quantiser)
             #[kani::proof]
-            #[kani::unwind(392)]
+            #[kani::unwind(66)]
             pub fn pattern() {
                 let p: u64 = kani::any();
                 kani::assume(p < (1 << 14));
@@ -163,7 +163,7 @@ macro_rules! ssr_bias {
 
             /// as many satellites as the identifier range allows, one entry each: Err or all come back
             #[kani::proof]
-            #[kani::unwind(392)]
+            #[kani::unwind(66)]
             pub fn all_satellites() {
                 let mut v = List::new();
                 let mut s = 0u8;
@@ -196,7 +196,7 @@ ssr_bias!(glo1065, df_msg1065_biases, Msg1065CodeBias, GloSigId, SSR_GLO, 31, 5)
 macro_rules! group_h {
     ($name:ident, $m:ident, $a:literal, $b:literal, $c:literal) => {
         #[kani::proof]
-        #[kani::unwind(392)]
+        #[kani::unwind(66)]
         pub fn $name() {
             $m::group([$a, $b, $c]);
         }
@@ -215,7 +215,7 @@ group_h!(g1065_555, glo1065, 5, 5, 5);
 
 /// The SSR signal tables the codecs use are the standard ones (both directions, all ids/descriptors).
 #[kani::proof]
-#[kani::unwind(392)]
+#[kani::unwind(66)]
 pub fn ssr_tables() {
     // observable only through the codec: an entry with descriptor (band, attr) is kept iff the
     // descriptor is in the reference table, and is written with the reference number
